@@ -400,6 +400,26 @@ static int drv_zk(const Opts &o)
 				rounds += "]";
 				emit("zk.se.verify " + c.kind + " " + c.pqgh() + " " + b2s(cyclic) + " " + cards(sv) + " " + cards(s2v) + " " + rounds + " " + oracle_log() + " " + tag + " => " + out);
 			}
+			// the zero-table cheat (finding F26): an unrelated second stack, every round commits to the hash of the
+			// all-zero stack and answers with the identity permutation (a rotation, too) and exponents 2^|q|,
+			// which hit the empty entries of the fixed-base tables
+			{
+				TMCG_Stack<VTMF_Card> other; for (size_t i = 0; i < n; i++) { VTMF_Card cd; VTMF_CardSecret cs; tmP.TMCG_CreatePrivateCard(cd, cs, A, 16 + g.below(8)); other.push(cd); }
+				Z big; mpz_set_ui(big, 1); mpz_mul_2exp(big, big, mpz_sizeinbase(A->q, 2) + g.below(3));
+				TMCG_StackSecret<VTMF_CardSecret> zs_; for (size_t i = 0; i < n; i++) { VTMF_CardSecret cs; mpz_set(cs.r, big); zs_.push(i, cs); }
+				TMCG_Stack<VTMF_Card> zero; for (size_t i = 0; i < n; i++) { VTMF_Card cd; mpz_set_ui(cd.c_1, 0); mpz_set_ui(cd.c_2, 0); zero.push(cd); }
+				std::ostringstream zt; zt << zero << std::endl; Z com; { bool was = hashlog.log; hashlog.log = false; tmcg_mpz_shash(com, zt.str()); hashlog.log = was; }
+				std::ostringstream cl, sl; cl << com.v; sl << zs_;
+				std::string vin_s; for (size_t i = 0; i < kappa; i++) vin_s += cl.str() + "\n" + sl.str() + "\n";
+				std::istringstream vin(vin_s); std::ostringstream vout;
+				coins.script.clear(); coins.script_pos = 0; for (size_t i = 0; i < kappa; i++) coins.script.push_back((unsigned char)bits[i]);
+				oracle_log();
+				std::string out = guarded([&]() { return b2s(tmV.TMCG_VerifyStackEquality(s, other, cyclic, B, vin, vout)); });
+				coins.script.clear(); coins.script_pos = 0; coins.take();
+				std::string rounds = "["; for (size_t i = 0; i < kappa; i++) { if (i) rounds += ","; rounds += com.str() + ":" + std::to_string(bits[i]) + ":" + hexs(sl.str()); }
+				rounds += "]";
+				emit("zk.se.verify " + c.kind + " " + c.pqgh() + " " + b2s(cyclic) + " " + cards(s) + " " + cards(other) + " " + rounds + " " + oracle_log() + " tag:cheat:zero-table-exponent => " + out);
+			}
 		}
 	}
 	return 0;
